@@ -468,6 +468,8 @@ func HistoryTree.Add
 func HistoryTree.AddBulk
   modifies everything
   ensures isnil(result_2) && len(result_0) == len(eventDigests)
+  // ASSUMED (not verified for the bulk path): the caller's list of digests is read, not rearranged
+  ensures forall k int :: 0 <= k && k < len(eventDigests) ==> eventDigests[k] == old(eventDigests[k])
 // (ghost bookkeeping: that a membership proof was asked for, and for which version - the
 // audit-path visitor panics on a node the tree does not have, i.e. for a version beyond the log)
 func HistoryTree.ProveMembership
